@@ -105,6 +105,109 @@ impl rustc_driver::Callbacks for Cb {
             let defines_opaque = !tcx.opaque_types_defined_by(*d).is_empty();
             (!is_const, !defines_opaque)
         });
+        // Type-checking a body that uses another local function's `impl Trait` / async future may need its hidden type (auto-trait
+        // leakage), which borrow-checks -- and steals the built MIR of -- that function.  So a body is taken after every local function it
+        // mentions, as far as the HIR tells without type information: resolved paths by DefId, method calls and type-relative paths by name.
+        {
+            use rustc_hir::intravisit::{self, Visitor};
+            struct Mentions<'t> {
+                tcx: TyCtxt<'t>,
+                dids: Vec<DefId>,
+                names: Vec<rustc_span::Symbol>,
+            }
+            impl<'v> Visitor<'v> for Mentions<'v> {
+                // closures are nested bodies: walk into them
+                type NestedFilter = rustc_middle::hir::nested_filter::OnlyBodies;
+                fn maybe_tcx(&mut self) -> Self::MaybeTyCtxt {
+                    self.tcx
+                }
+                fn visit_expr(&mut self, e: &'v rustc_hir::Expr<'v>) {
+                    match &e.kind {
+                        rustc_hir::ExprKind::MethodCall(seg, ..) => self.names.push(seg.ident.name),
+                        rustc_hir::ExprKind::Path(rustc_hir::QPath::Resolved(_, path)) => {
+                            if let rustc_hir::def::Res::Def(_, did) = path.res {
+                                self.dids.push(did);
+                            }
+                        }
+                        rustc_hir::ExprKind::Path(rustc_hir::QPath::TypeRelative(_, seg)) => self.names.push(seg.ident.name),
+                        _ => {}
+                    }
+                    intravisit::walk_expr(self, e);
+                }
+            }
+            // only non-closure owners have a HIR body of their own to start from; closures are visited as part of their parent
+            let fn_owners: Vec<LocalDefId> = owners.iter().copied().filter(|d| !matches!(tcx.def_kind(*d), DefKind::Closure)).collect();
+            let mut by_name: std::collections::HashMap<rustc_span::Symbol, Vec<LocalDefId>> = std::collections::HashMap::new();
+            for d in &fn_owners {
+                if let Some(n) = tcx.opt_item_name(d.to_def_id()) {
+                    by_name.entry(n).or_default().push(*d);
+                }
+            }
+            let mut deps: std::collections::HashMap<LocalDefId, Vec<LocalDefId>> = std::collections::HashMap::new();
+            for d in &fn_owners {
+                let mut m = Mentions { tcx, dids: Vec::new(), names: Vec::new() };
+                if let Some(body) = tcx.hir_maybe_body_owned_by(*d) {
+                    m.visit_body(body);
+                }
+                let mut v: Vec<LocalDefId> = Vec::new();
+                for did in m.dids {
+                    if let Some(l) = did.as_local() {
+                        if l != *d && fn_owners.contains(&l) && !v.contains(&l) {
+                            v.push(l);
+                        }
+                    }
+                }
+                for n in m.names {
+                    if let Some(ls) = by_name.get(&n) {
+                        for l in ls {
+                            if *l != *d && !v.contains(l) {
+                                v.push(*l);
+                            }
+                        }
+                    }
+                }
+                deps.insert(*d, v);
+            }
+            fn root_fn(tcx: TyCtxt<'_>, mut d: LocalDefId) -> LocalDefId {
+                while matches!(tcx.def_kind(d), DefKind::Closure) {
+                    d = tcx.local_parent(d);
+                }
+                d
+            }
+            let mut order: Vec<LocalDefId> = Vec::new();
+            let mut state: std::collections::HashMap<LocalDefId, u8> = std::collections::HashMap::new();
+            fn visit(
+                d: LocalDefId,
+                deps: &std::collections::HashMap<LocalDefId, Vec<LocalDefId>>,
+                state: &mut std::collections::HashMap<LocalDefId, u8>,
+                order: &mut Vec<LocalDefId>,
+            ) {
+                if state.get(&d).copied().unwrap_or(0) != 0 {
+                    return;
+                }
+                state.insert(d, 1);
+                if let Some(v) = deps.get(&d) {
+                    for x in v.clone() {
+                        visit(x, deps, state, order);
+                    }
+                }
+                state.insert(d, 2);
+                order.push(d);
+            }
+            // keep the coarse order above as the tie-break: visit roots in that order
+            let mut seen_roots: Vec<LocalDefId> = Vec::new();
+            for d in &owners {
+                let r = root_fn(tcx, *d);
+                if !seen_roots.contains(&r) {
+                    seen_roots.push(r);
+                }
+            }
+            for r in &seen_roots {
+                visit(*r, &deps, &mut state, &mut order);
+            }
+            let rank: std::collections::HashMap<LocalDefId, usize> = order.iter().enumerate().map(|(i, d)| (*d, i)).collect();
+            owners.sort_by_key(|d| rank.get(&root_fn(tcx, *d)).copied().unwrap_or(usize::MAX));
+        }
         // 2a. initialisers of named consts and statics (tables the rules read, e.g. a list of status codes): before
         //     anything else, because building a function body may const-evaluate (and steal) them
         let const_owners: Vec<LocalDefId> = tcx
